@@ -40,7 +40,12 @@ def scratch_root() -> str:
     global _scratch_root
     if _scratch_root is None:
         base = "/dev/shm" if os.path.isdir("/dev/shm") and os.access("/dev/shm", os.W_OK) else tempfile.gettempdir()
+        parent = os.environ.get("DSVERIF_SCRATCH_PARENT")
+        if parent and os.path.isdir(parent):
+            base = parent           # a worker process: its scratch lives inside the main process's, which removes everything
         _scratch_root = tempfile.mkdtemp(prefix="dsverif-", dir=base)
+        if not parent:
+            os.environ["DSVERIF_SCRATCH_PARENT"] = _scratch_root       # inherited by pool workers and child processes
         root = _scratch_root
         pid = os.getpid()
 
